@@ -118,6 +118,8 @@ pub trait LibG: Group + std::fmt::Debug {
     fn jac_coords(&self) -> (Vec<[u8; 32]>, Vec<[u8; 32]>, Vec<[u8; 32]>);
     /// (x, y, 1) through the public constructor, from canonical coordinate parts (real first)
     fn from_affine_parts(x: &[[u8; 32]], y: &[[u8; 32]]) -> Option<Self>;
+    /// stored (Montgomery) limbs of the components of z, through the read-only hook
+    fn z_limbs(&self) -> Vec<[u64; 4]>;
 }
 
 impl LibG for G1 {
@@ -177,6 +179,9 @@ impl LibG for G1 {
             return None;
         }
         Some(G1::new(Fq::from_slice(&x[0])?, Fq::from_slice(&y[0])?, Fq::one()))
+    }
+    fn z_limbs(&self) -> Vec<[u64; 4]> {
+        vec![sm9_core::verif::raw_fq(&self.z())]
     }
 }
 
@@ -247,6 +252,12 @@ impl LibG for G2 {
         let fx = Fq2::new(Fq::from_slice(&x[0])?, Fq::from_slice(&x[1])?);
         let fy = Fq2::new(Fq::from_slice(&y[0])?, Fq::from_slice(&y[1])?);
         Some(G2::new(fx, fy, Fq2::one()))
+    }
+    fn z_limbs(&self) -> Vec<[u64; 4]> {
+        let z = self.z();
+        // components, and the norm z0^2 + 2 z1^2 that the Fq2 inversion actually inverts
+        let n = z.real() * z.real() + (z.imaginary() * z.imaginary()) + (z.imaginary() * z.imaginary());
+        vec![sm9_core::verif::raw_fq(&z.real()), sm9_core::verif::raw_fq(&z.imaginary()), sm9_core::verif::raw_fq(&n)]
     }
 }
 
